@@ -8,6 +8,7 @@ import (
 	"errors"
 	"fmt"
 	"io"
+	"net/http"
 	"reflect"
 	"strconv"
 	"testing"
@@ -20,7 +21,7 @@ import (
 	"github.com/flamego/flamego/verifharness/internal/rt"
 )
 
-const rule = "case = one handler of a supported return shape (string, []byte, error (from func() and from func(Context)), *string, named string, any holding a string, (int,string), (int,[]byte), (int,error), (string,error), ([]byte,error); func() (int,string) both as the auto-wrapped fast path and as a named func type invoked reflectively) optionally flushing, sending a status line or writing itself first and then returning generated values (arbitrary bytes, occasionally 0.5..70 KB of them, empty, nil, nil/non-nil errors of 4 concrete types incl. one with an empty message, status 100..999), placed as middleware, group handler, route handler or action, followed by a marker handler; optionally a custom ReturnHandler mapped at application or request scope. " +
+const rule = "case = one handler of a supported return shape (string, []byte, error (from func() and from func(Context)), *string, *[]byte, named string, named []byte, any holding a string / a byte slice / an error, (named int, string), (int,string), (int,[]byte), (int,error), (string,error), ([]byte,error); func() (int,string) both as the auto-wrapped fast path and as a named func type invoked reflectively) optionally flushing, sending a status line or writing itself first and then returning generated values (arbitrary bytes, occasionally 0.5..70 KB of them, empty, nil, nil/non-nil errors of 4 concrete types incl. one with an empty message, status 100..999), placed as middleware, group handler, route handler or action, followed by a marker handler; optionally a custom ReturnHandler mapped at application or request scope. " +
 	"Oracle: an own table (status, body, chain continues?) checked on a spy writer (after the handler's own output, if any: the returned values are rendered all the same), 'marker ran <=> nothing was written', fast path == reflective path, and a custom ReturnHandler receives exactly the returned values while the table is not applied. " +
 	"non-trivial = empty / nil / zero results, a nil error in a pair, a pointer or interface result, a non-200 status, a position other than the route handler, or a custom ReturnHandler; distinct by case text"
 
@@ -53,6 +54,8 @@ type myErr struct{ msg string }
 func (e *myErr) Error() string { return e.msg }
 
 type named string
+type namedBytes []byte
+type namedCode int
 type teapotNamed func() (int, string)
 
 func (c Case) str() string {
@@ -109,6 +112,25 @@ func (c Case) handler(own func()) (flamego.Handler, []interface{}) {
 			v = nil
 		}
 		return func() interface{} { own(); return v }, []interface{}{v}
+	case "pbytes":
+		var p *[]byte
+		if !c.Nil {
+			p = &b
+		}
+		return func() *[]byte { own(); return p }, []interface{}{p}
+	case "any_bytes":
+		var v interface{} = b
+		return func() interface{} { own(); return v }, []interface{}{v}
+	case "named_bytes":
+		return func() namedBytes { own(); return namedBytes(b) }, []interface{}{namedBytes(b)}
+	case "any_error":
+		var v interface{}
+		if e != nil {
+			v = e
+		}
+		return func() interface{} { own(); return v }, []interface{}{v}
+	case "namedcode_string":
+		return func(flamego.Context) (namedCode, string) { own(); return namedCode(c.Code), s }, []interface{}{namedCode(c.Code), s}
 	case "int_string":
 		// a named func type so that the reflective path is taken
 		return func(flamego.Context) (int, string) { own(); return c.Code, s }, []interface{}{c.Code, s}
@@ -144,8 +166,15 @@ func (c Case) table() (status int, body string, written bool) {
 	switch c.Shape {
 	case "string", "named":
 		return text(c.str())
-	case "bytes", "pstring", "any":
+	case "bytes", "pstring", "any", "pbytes", "any_bytes", "named_bytes":
 		return text(s)
+	case "any_error":
+		if e != nil {
+			return 500, e.Error(), true
+		}
+		return 0, "", false
+	case "namedcode_string":
+		return c.Code, c.str(), true
 	case "error", "ctx_error":
 		if e != nil {
 			return 500, e.Error(), true
@@ -208,7 +237,11 @@ func checkCase(c Case) (out evid.Outcome) {
 		f.Use(func() ([]byte, error) { return []byte{}, nil })
 	}
 	if c.Custom == "request" {
-		f.Use(func(ctx flamego.Context) { ctx.Map(custom) })
+		f.Use(func(ctx flamego.Context) {
+			if ctx.Request().Header.Get("X-Plain") == "" {
+				ctx.Map(custom)
+			}
+		})
 	}
 	switch c.Pos {
 	case "use":
@@ -228,6 +261,22 @@ func checkCase(c Case) (out evid.Outcome) {
 	}
 	spy := rt.NewSpy()
 	f.ServeHTTP(spy, rt.NewRequest(c.Method, path, nil))
+	if c.Custom == "request" && c.Own == "" {
+		// the replacement was this request's: the next request, for which nobody
+		// maps one, gets the table again
+		plain := rt.NewSpy()
+		hdr := http.Header{}
+		hdr.Set("X-Plain", "1")
+		calls := customCalls
+		f.ServeHTTP(plain, rt.NewRequest(c.Method, path, hdr))
+		ts, tb, _ := c.table()
+		if c.Method == "HEAD" {
+			tb = ""
+		}
+		if customCalls != calls || plain.Status() != ts || string(plain.Body) != tb {
+			return evid.Fail("custom-leaks", "a ReturnHandler mapped by an earlier request is still in effect: second request status %d body %q (custom handler called %d more times), the table gives %d %q; %s", plain.Status(), plain.Body, customCalls-calls, ts, tb, js(c))
+		}
+	}
 
 	wantStatus, wantBody, wantWritten := c.table()
 	if c.Custom != "" {
@@ -264,9 +313,9 @@ func checkCase(c Case) (out evid.Outcome) {
 				// error is a valid Value of type error): a ReturnHandler may rely on it
 				return evid.Fail("custom-values", "custom ReturnHandler received an invalid reflect.Value as value %d; %s", i, desc)
 			}
-			var got interface{}
-			if v.IsValid() && (v.Kind() != reflect.Interface && v.Kind() != reflect.Ptr && v.Kind() != reflect.Slice || !v.IsNil()) {
-				got = v.Interface()
+			got := v.Interface()
+			if isNil(got) {
+				got = nil
 			}
 			want := returned[i]
 			if isNil(want) {
@@ -352,7 +401,7 @@ func js(v interface{}) string {
 	return string(b)
 }
 
-var shapes = []string{"string", "bytes", "error", "ctx_error", "pstring", "named", "any", "int_string", "teapot_fast", "teapot_named", "int_bytes", "int_error", "string_error", "bytes_error"}
+var shapes = []string{"pbytes", "any_bytes", "named_bytes", "any_error", "namedcode_string", "string", "bytes", "error", "ctx_error", "pstring", "named", "any", "int_string", "teapot_fast", "teapot_named", "int_bytes", "int_error", "string_error", "bytes_error"}
 
 func genCase(t *rapid.T) Case {
 	c := Case{
